@@ -197,6 +197,45 @@ def sset(doc):
     return {k: sorted(set(v)) for k, v in strict_doc(doc).items() if v or k == ""}
 
 
+def kind_clashes(doc):
+    """(container key, record kind, identifier URI, attribute URI, numeric value) for which the records that unified() merges hold
+    two ==-equal values of different Python kinds (0 and False, 1 and True and 1.0): they are one member of the merged value
+    *set*, and which kind the member keeps is decided by the order in which the values arrive (A-SET), on both sides"""
+    from fractions import Fraction
+    out = set()
+    conts = [("", doc)] + ([(b.identifier.uri if b.identifier is not None else "<None>", b) for b in doc.bundles] if doc.is_document() else [])
+    for ck, c in conts:
+        seen = {}
+        for r in c.get_records():
+            if r.identifier is None:
+                rid = id(r)
+            else:
+                rid = r.identifier.uri
+            for (a, v) in r.attributes:
+                if isinstance(v, (bool, int, float)):
+                    key = (ck, r.get_type().localpart, rid, a.uri, Fraction(v))
+                    seen.setdefault(key, set()).add(type(v).__name__)
+        for key, kinds in seen.items():
+            if len(kinds) > 1:
+                out.add((key[0], key[1], key[2], key[3], str(key[4])))
+    return out
+
+
+def collapse_clashes(ck, rec_json, clashes):
+    """the strict record with the kind of such members erased"""
+    from fractions import Fraction
+    r = json.loads(rec_json)
+    attrs = []
+    for (u, v) in r["attrs"]:
+        if v[0] in ("bool", "int", "float"):
+            num = Fraction(int(v[1])) if v[0] == "bool" else Fraction(v[1]) if v[0] == "int" else Fraction(float(v[1]))
+            if (ck, r["kind"], r["id"], u, str(num)) in clashes:
+                v = ["num", str(num)]
+        attrs.append([u, v])
+    r["attrs"] = sorted(attrs, key=lambda x: json.dumps(x, sort_keys=True))
+    return json.dumps(r, sort_keys=True)
+
+
 def assoc_hazard_activities(doc):
     """activities (per container) that carry both a plain anonymous wasAssociatedWith and an anonymous one that needs a qualified node"""
     out = set()
@@ -258,6 +297,13 @@ def e2e(ctx, w, d, fails, case, scenario=None):
     back = w.conts[h]
     w.obs(h)
     a, b = sset(uni), sset(back)
+    if a != b:
+        clashes = kind_clashes(doc)
+        if clashes:
+            # ==-equal values of different kinds merged into one set member: compare with that member's kind erased
+            a = {k: sorted(set(collapse_clashes(k, x, clashes) for x in v)) for k, v in a.items()}
+            b = {k: sorted(set(collapse_clashes(k, x, clashes) for x in v)) for k, v in b.items()}
+            ctx.count("kind-clash-in-merged-set")
     if a != b:
         lost, gained = [], []
         for k in set(a) | set(b):
